@@ -52,7 +52,8 @@ Section Flat.
       flat_synth t = true -> sels = [SSpread n e l; t] -> find_fragment frags n = Some fr -> find_type sch (fr_on fr) = Some ft ->
       fragment_matches typ ft = true -> flat_shape typ sels (Some 0%nat).
 
-  Hypothesis Hfr : frags_okb2 sch frags = true.
+  Variable srcs : list (list lkind).
+  Hypothesis Hfr : frags_okb2 sch frags srcs = true.
 
   Lemma frag_on_resolves n fr : find_fragment frags n = Some fr -> exists ft, find_type sch (fr_on fr) = Some ft.
   Proof.
@@ -61,11 +62,12 @@ Section Flat.
       destruct (str_eqb (fr_name f) n); [injection H as <-; left; reflexivity | right; exact (IH H)]. }
     unfold frags_okb2 in Hfr. rewrite forallb_forall in Hfr. specialize (Hfr fr Hin). unfold frag_okb2 in Hfr.
     apply Bool.andb_true_iff in Hfr. destruct Hfr as [Hon _].
+    apply Bool.andb_true_iff in Hon. destruct Hon as [Hon _].
     destruct (find_type sch (fr_on fr)) as [ft|]; [eexists; reflexivity | discriminate Hon].
   Qed.
 
-  Theorem flat_cases typ sels :
-    sels_okb2 sch frags sels = true ->
+  Theorem flat_cases typ src sels :
+    sels_okb2 sch frags srcs src sels = true ->
     match validate_flatten_option sch frags typ sels with
     | FlatErr => True
     | FlatPanic => False
@@ -112,7 +114,7 @@ Section Flat.
           -- discriminate.
     - (* FlatPanic: a spread whose fragment or fragment type does not resolve *)
       unfold validate_flatten_option in E. destruct sels as [|s0 r0] eqn:Es; [discriminate|]. rewrite <- Es in *. clear Es Hnon Hle1.
-      assert (G : forall sels k idx, forallb (sel_okb2 sch frags) sels = true -> flatten_go sch frags typ sels k idx <> FlatPanic).
+      assert (G : forall sels k idx, forallb (sel_okb2 sch frags srcs src) sels = true -> flatten_go sch frags typ sels k idx <> FlatPanic).
       { clear E Hsel sels s0 r0. induction sels as [|s r IH]; intros k idx Hs; cbn [flatten_go]; [discriminate|].
         cbn [forallb] in Hs. apply Bool.andb_true_iff in Hs. destruct Hs as [Hs Hr].
         destruct s as [a n t p e sub l|c e sub l|n e l].
